@@ -83,7 +83,7 @@ def run(prop, components, tier, lean_targets=(), level_text="", assumptions=(), 
                 batches.append(("corpus:" + os.path.basename(f), open(f).read()))
             for ga in comp.gen_args(tier, seed):
                 try:
-                    p = vlib.run([drv, "-mode", "gen"] + ga, env=vlib.GOENV, timeout=90 if tier == "quick" else 2400)
+                    p = vlib.run([drv, "-mode", "gen"] + ga, env=vlib.GOENV, timeout=420 if tier == "quick" else 3600)   # an idle machine needs 55-80 s for the largest quick generator (schedule enumeration of the wake driver); the limit is there for implementations that hang
                 except subprocess.TimeoutExpired:
                     # some generators drive the real code to enumerate its scheduling points: a hang there is a hang of the code
                     st["broken"].append("generator of driver %s (%s) did not finish: the implementation hangs while its schedules are enumerated" % (comp.name, " ".join(ga)))
